@@ -1,8 +1,411 @@
 package main
 
-import "verifharness/rng"
+import (
+	"bufio"
+	"bytes"
+	"context"
+	"encoding/hex"
+	"fmt"
+	"io"
+	"net"
+	"net/http"
+	"os"
+	"os/exec"
+	"strconv"
+	"strings"
+	"sync"
+	"time"
 
-func runE2E(out string, r *rng.R, thorough bool, m *meta) {}
-func childMain(mode string)                                {}
+	"github.com/saucelabs/forwarder"
+	"github.com/saucelabs/forwarder/log"
 
-func replayE2E(rp replayIn, out string, m *meta) {}
+	"verifharness/coqfmt"
+	"verifharness/rng"
+)
+
+const e2eHeaderTimeout = 400 * time.Millisecond
+
+// childMain is the proxy process: an origin that reports the X-Forwarded-For it saw and the real proxy
+// (forwarder.NewHTTPProxy) listening with the PROXY protocol enabled.  A crash of this process is what the
+// parent is looking for, so nothing is recovered here.
+func childMain(mode string) {
+	ol, err := net.Listen("tcp", "127.0.0.1:0")
+	if err != nil {
+		panic(err)
+	}
+	go http.Serve(ol, http.HandlerFunc(func(w http.ResponseWriter, r *http.Request) {
+		w.Header().Set("Connection", "close")
+		fmt.Fprintf(w, "xff=%s", r.Header.Get("X-Forwarded-For"))
+	}))
+	cfg := forwarder.DefaultHTTPProxyConfig()
+	cfg.ListenerConfig = *forwarder.DefaultListenerConfig("127.0.0.1:0")
+	cfg.ProxyProtocolConfig = &forwarder.ProxyProtocolConfig{ReadHeaderTimeout: e2eHeaderTimeout}
+	cfg.ProxyLocalhost = forwarder.AllowProxyLocalhost
+	hp, err := forwarder.NewHTTPProxy(cfg, nil, nil, nil, log.NopLogger, nil)
+	if err != nil {
+		panic(err)
+	}
+	ctx, cancel := context.WithCancel(context.Background())
+	go func() {
+		if err := hp.Run(ctx); err != nil && ctx.Err() == nil {
+			fmt.Fprintln(os.Stderr, "proxy Run returned:", err)
+			os.Exit(7)
+		}
+	}()
+	addrs, _ := hp.Addr()
+	fmt.Printf("READY %s %s\n", addrs[0], ol.Addr().String())
+	io.Copy(io.Discard, os.Stdin) // parent closes stdin to stop us
+	cancel()
+}
+
+type child struct {
+	cmd    *exec.Cmd
+	stdin  io.WriteCloser
+	proxy  string
+	origin string
+	stderr *bytes.Buffer
+	done   chan struct{}
+	mu     sync.Mutex
+}
+
+func startChild() (*child, error) {
+	exe, err := os.Executable()
+	if err != nil {
+		return nil, err
+	}
+	c := &child{stderr: &bytes.Buffer{}, done: make(chan struct{})}
+	c.cmd = exec.Command(exe, "-child", "proxy")
+	c.cmd.Stderr = c.stderr
+	c.stdin, _ = c.cmd.StdinPipe()
+	so, _ := c.cmd.StdoutPipe()
+	if err := c.cmd.Start(); err != nil {
+		return nil, err
+	}
+	rd := bufio.NewReader(so)
+	lineCh := make(chan string, 1)
+	go func() {
+		l, _ := rd.ReadString('\n')
+		lineCh <- l
+		io.Copy(io.Discard, rd)
+	}()
+	go func() { c.cmd.Wait(); close(c.done) }()
+	select {
+	case l := <-lineCh:
+		f := strings.Fields(l)
+		if len(f) != 3 || f[0] != "READY" {
+			return nil, fmt.Errorf("child did not start: %q %s", l, c.stderr.String())
+		}
+		c.proxy, c.origin = f[1], f[2]
+	case <-time.After(20 * time.Second):
+		return nil, fmt.Errorf("child start timeout")
+	}
+	return c, nil
+}
+
+func (c *child) dead() bool {
+	select {
+	case <-c.done:
+		return true
+	default:
+		return false
+	}
+}
+
+func (c *child) stop() {
+	c.stdin.Close()
+	select {
+	case <-c.done:
+	case <-time.After(3 * time.Second):
+		c.cmd.Process.Kill()
+		<-c.done
+	}
+}
+
+type e2eObs struct {
+	Status  int
+	XFF     string
+	Elapsed time.Duration
+}
+
+// exchange sends raw bytes (segmented) and reads one HTTP response, if any.
+func exchange(proxy string, raw []byte, cuts []int, deadline time.Duration) e2eObs {
+	t0 := time.Now()
+	conn, err := net.DialTimeout("tcp", proxy, 2*time.Second)
+	if err != nil {
+		return e2eObs{Status: -1}
+	}
+	defer conn.Close()
+	conn.(*net.TCPConn).SetNoDelay(true)
+	for i, s := range segments(raw, cuts) {
+		if len(s) > 0 {
+			conn.Write(s)
+		}
+		if i > 0 {
+			time.Sleep(200 * time.Microsecond)
+		}
+	}
+	conn.SetReadDeadline(time.Now().Add(deadline))
+	resp, err := http.ReadResponse(bufio.NewReader(conn), nil)
+	if err != nil {
+		return e2eObs{Status: 0, Elapsed: time.Since(t0)}
+	}
+	defer resp.Body.Close()
+	body, _ := io.ReadAll(resp.Body)
+	o := e2eObs{Status: resp.StatusCode, Elapsed: time.Since(t0)}
+	if i := bytes.Index(body, []byte("xff=")); i >= 0 {
+		o.XFF = string(body[i+4:])
+	}
+	return o
+}
+
+func request(origin string) []byte {
+	return []byte("GET http://" + origin + "/ HTTP/1.1\r\nHost: " + origin + "\r\nConnection: close\r\n\r\n")
+}
+
+type ecaseJSON struct {
+	Kind   string `json:"kind"`
+	Header string `json:"in"` // hex of the PROXY header bytes (the request follows)
+	Cuts   []int  `json:"cuts"`
+	Note   string `json:"note,omitempty"`
+}
+
+type e2eMeta struct {
+	Cases       int              `json:"cases"`
+	Served      int              `json:"served"`
+	Crashes     int              `json:"crashes"`
+	ChildStarts int              `json:"child_starts"`
+	Timeouts    []map[string]any `json:"timeouts"`
+	HeaderTO    string           `json:"read_header_timeout"`
+	CrashTail   string           `json:"crash_stderr_tail,omitempty"`
+}
+
+func coqXFF(x string) string {
+	ip := net.ParseIP(strings.TrimSpace(x))
+	if ip == nil {
+		if x == "" {
+			return "None"
+		}
+		return "(Some (@nil N))"
+	}
+	return "(Some " + coqfmt.Bytes(ip.To16()) + ")"
+}
+
+func e2eHeaders(r *rng.R, thorough bool) [][]byte {
+	var hs [][]byte
+	for _, c := range corpus() {
+		// corpus entries carry a payload after the header: cut at the header end (first CRLF for v1, length for v2)
+		if bytes.HasPrefix(c, v2sig) && len(c) >= 16 {
+			n := 16 + int(c[14])<<8 + int(c[15])
+			if n <= len(c) {
+				hs = append(hs, c[:n])
+			}
+		} else if i := bytes.Index(c, []byte("\r\n")); i >= 0 {
+			hs = append(hs, c[:i+2])
+		}
+	}
+	for _, l := range []string{
+		"PROXY TCP4 1.1.1.1 2.2.2.2 1000 2000\r\n", "PROXY TCP4 0.0.0.0 0.0.0.0 0 0\r\n", "PROXY TCP4 255.255.255.255 255.255.255.255 65535 65535\r\n",
+		"PROXY TCP6 2001:db8::68 ::2 1 2\r\n", "PROXY TCP6 :: :: 0 0\r\n", "PROXY TCP6 ::1 :: 0 0\r\n", "PROXY TCP6 ::1 ::1 2 3\r\n",
+		"PROXY TCP6 ffff:ffff:ffff:ffff:ffff:ffff:ffff:ffff ffff:ffff:ffff:ffff:ffff:ffff:ffff:ffff 65535 65535\r\n",
+		"PROXY UNKNOWN\r\n", "PROXY UNKNOWN 1.1.1.1 2.2.2.2 1 2\r\n", "PROXY TCP4 1.1.1.1 2.2.2.2 1000 70000\r\n",
+		"PROXY TCP4 1.1.1.1 2.2.2.2 1 2 3\r\n", "PROXY TCP5 1.1.1.1 2.2.2.2 1 2\r\n", "PROXI TCP4 1.1.1.1 2.2.2.2 1 2\r\n", "",
+		"PROXY UNKNOWN" + strings.Repeat("x", 200) + "\r\n",
+	} {
+		hs = append(hs, []byte(l))
+	}
+	body4 := []byte{7, 7, 7, 7, 8, 8, 8, 8, 0x1f, 0x90, 0x00, 0x50}
+	b6 := append(append(append([]byte{}, net.ParseIP("2001:db8::77")...), net.ParseIP("2001:db8::88")...), 0x1f, 0x90, 0x00, 0x50)
+	tlv := []byte{0x01, 0x00, 0x02, 'h', '2'}
+	hs = append(hs, v2header(0x21, 0x11, 12, body4), v2header(0x21, 0x12, 12, body4), v2header(0x21, 0x21, 36, b6), v2header(0x21, 0x22, 36, b6),
+		v2header(0x21, 0x11, 17, append(append([]byte{}, body4...), tlv...)), v2header(0x20, 0x00, 0, nil), v2header(0x20, 0x11, 12, body4),
+		v2header(0x21, 0x11, 2048, append(append([]byte{}, body4...), genBody(4, 2036)...)), v2header(0x21, 0x11, 2049, genBody(4, 2049)),
+		v2header(0x21, 0x11, 11, body4[:11]), v2header(0x21, 0x31, 12, body4), v2header(0x11, 0x11, 12, body4))
+	// hostile: PROXY command with unspecified / unknown families, unknown commands
+	fams := []byte{0x00, 0x01, 0x10, 0x13, 0x20, 0x30, 0x41, 0xff}
+	cmds := []byte{0x22, 0x23, 0x2f}
+	if thorough {
+		for f := 0; f < 256; f += 5 {
+			fams = append(fams, byte(f))
+		}
+		cmds = []byte{0x22, 0x23, 0x24, 0x25, 0x26, 0x27, 0x28, 0x29, 0x2a, 0x2b, 0x2c, 0x2d, 0x2e, 0x2f}
+	}
+	for _, f := range fams {
+		hs = append(hs, v2header(0x21, f, 12, body4), v2header(0x21, f, 0, nil))
+	}
+	for _, vc := range cmds {
+		hs = append(hs, v2header(vc, 0x11, 12, body4), v2header(vc, 0x00, 0, nil))
+	}
+	return hs
+}
+
+func runE2E(out string, r *rng.R, thorough bool, m *meta) {
+	em := e2eMeta{HeaderTO: e2eHeaderTimeout.String()}
+	var ch *child
+	ensure := func() *child {
+		if ch == nil || ch.dead() {
+			var err error
+			ch, err = startChild()
+			if err != nil {
+				panic(err)
+			}
+			em.ChildStarts++
+		}
+		return ch
+	}
+	defer func() {
+		if ch != nil && !ch.dead() {
+			ch.stop()
+		}
+	}()
+	var coq []string
+	var js []any
+	seen := map[string]bool{}
+	goodHdr := []byte("PROXY TCP4 9.9.9.9 8.8.8.8 999 888\r\n")
+	for _, h := range e2eHeaders(r, thorough) {
+		if seen[string(h)] {
+			continue
+		}
+		seen[string(h)] = true
+		coqc, jsn := e2eCase(ensure, h, r, goodHdr, &em)
+		coq = append(coq, coqc)
+		js = append(js, jsn)
+	}
+	em.Cases = len(coq)
+	em.Timeouts = timeoutProbes(ensure, goodHdr)
+	m.E2E = em
+	m.Kinds = append(m.Kinds, writeKind(out, "ecases", "ecase", "ecase_model_ok", "ecase_verdict", coq, js, 60, ""))
+}
+
+func e2eCase(ensure func() *child, h []byte, r *rng.R, goodHdr []byte, em *e2eMeta) (string, ecaseJSON) {
+	c := ensure()
+	req := request(c.origin)
+	raw := append(append([]byte{}, h...), req...)
+	var cuts []int
+	if len(h) > 2 && len(h) < 200 {
+		cuts = []int{1 + r.Intn(len(h)-1), len(h)}
+	}
+	o := exchange(c.proxy, raw, cuts, 2*time.Second)
+	// liveness: the process is still there and serves a well-formed connection
+	time.Sleep(15 * time.Millisecond)
+	crashed := c.dead()
+	if !crashed {
+		// a crash in the accept loop can lag the exchange: give it a moment
+		select {
+		case <-c.done:
+			crashed = true
+		case <-time.After(20 * time.Millisecond):
+		}
+	}
+	alive := false
+	if !crashed {
+		p := exchange(c.proxy, append(append([]byte{}, goodHdr...), req...), nil, 2*time.Second)
+		alive = p.Status == 200 && strings.TrimSpace(p.XFF) == "9.9.9.9"
+		crashed = c.dead()
+	}
+	if crashed {
+		em.Crashes++
+		t := c.stderr.String()
+		if i := strings.Index(t, "panic:"); i >= 0 {
+			t = t[i:]
+		}
+		if len(t) > 600 {
+			t = t[:600]
+		}
+		em.CrashTail = t
+	}
+	if o.Status == 200 {
+		em.Served++
+	}
+	st := o.Status
+	if st < 0 {
+		st = 0
+	}
+	coq := fmt.Sprintf("{| e_hdr := %s; e_req := %s; e_crashed := %s; e_alive := %s; e_status := %d; e_xff := %s; e_sock_ip := %s |}",
+		coqfmt.Bytes(h), coqfmt.Bytes(req), coqfmt.Bool(crashed), coqfmt.Bool(alive), st, coqXFF(o.XFF),
+		coqfmt.Bytes(net.ParseIP("127.0.0.1").To16()))
+	return coq, ecaseJSON{"e2e", hex.EncodeToString(h), cuts, ""}
+}
+
+// timeoutProbes measures the header timeout on the real proxy (tested, not proved).
+func timeoutProbes(ensure func() *child, goodHdr []byte) []map[string]any {
+	var out []map[string]any
+	c := ensure()
+	req := request(c.origin)
+	closeTime := func(first []byte, late []byte, lateAfter time.Duration) (time.Duration, int, bool) {
+		t0 := time.Now()
+		conn, err := net.DialTimeout("tcp", c.proxy, 2*time.Second)
+		if err != nil {
+			return 0, -1, false
+		}
+		defer conn.Close()
+		if len(first) > 0 {
+			conn.Write(first)
+		}
+		if late != nil {
+			time.Sleep(lateAfter)
+			conn.Write(late)
+		}
+		conn.SetReadDeadline(time.Now().Add(3 * time.Second))
+		resp, err := http.ReadResponse(bufio.NewReader(conn), nil)
+		el := time.Since(t0)
+		if err == nil {
+			resp.Body.Close()
+			return el, resp.StatusCode, true
+		}
+		ne, isNet := err.(net.Error)
+		return el, 0, !(isNet && ne.Timeout())
+	}
+	// (a) silent peer, (b) half a header then silence: closed at about the timeout; meanwhile and afterwards others are served
+	for _, p := range []struct {
+		name  string
+		first []byte
+	}{{"silent-peer", nil}, {"half-header-then-silence", []byte("PROXY TCP4 1.1.1.1 2.2")}} {
+		var wg sync.WaitGroup
+		var other e2eObs
+		wg.Add(1)
+		go func() {
+			defer wg.Done()
+			time.Sleep(50 * time.Millisecond)
+			other = exchange(c.proxy, append(append([]byte{}, goodHdr...), req...), nil, 3*time.Second)
+		}()
+		el, st, closed := closeTime(p.first, nil, 0)
+		wg.Wait()
+		out = append(out, map[string]any{"probe": p.name, "closed_by_server": closed, "closed_after_ms": el.Milliseconds(), "status": st,
+			"other_connection_status": other.Status, "other_connection_latency_ms": other.Elapsed.Milliseconds(), "process_alive": !c.dead()})
+	}
+	// (c) the rest of the header arrives after the timeout: that connection must not be served
+	el, st, closed := closeTime([]byte("PROXY TCP4 1.1.1.1 2.2"), append([]byte(".2.2 1 2\r\n"), req...), e2eHeaderTimeout+300*time.Millisecond)
+	out = append(out, map[string]any{"probe": "header-completed-after-timeout", "closed_by_server": closed, "closed_after_ms": el.Milliseconds(), "status": st, "process_alive": !c.dead()})
+	// (d) a slow but timely header is served
+	el, st, closed = closeTime([]byte("PROXY TCP4 1.1.1.1 2.2"), append([]byte(".2.2 1 2\r\n"), req...), e2eHeaderTimeout/4)
+	out = append(out, map[string]any{"probe": "slow-header-within-timeout", "closed_by_server": closed, "closed_after_ms": el.Milliseconds(), "status": st, "process_alive": !c.dead()})
+	// afterwards: still alive
+	p := exchange(c.proxy, append(append([]byte{}, goodHdr...), req...), nil, 2*time.Second)
+	out = append(out, map[string]any{"probe": "after-all", "status": p.Status, "xff": strings.TrimSpace(p.XFF), "process_alive": !c.dead()})
+	return out
+}
+
+func replayE2E(rp replayIn, out string, m *meta) {
+	h, _ := hex.DecodeString(rp.In)
+	em := e2eMeta{HeaderTO: e2eHeaderTimeout.String()}
+	var ch *child
+	ensure := func() *child {
+		if ch == nil || ch.dead() {
+			var err error
+			ch, err = startChild()
+			if err != nil {
+				panic(err)
+			}
+			em.ChildStarts++
+		}
+		return ch
+	}
+	coq, js := e2eCase(ensure, h, rng.New(1), []byte("PROXY TCP4 9.9.9.9 8.8.8.8 999 888\r\n"), &em)
+	if ch != nil && !ch.dead() {
+		ch.stop()
+	}
+	fmt.Printf("replay e2e: crashes=%d served=%d %s\n", em.Crashes, em.Served, strconv.Quote(em.CrashTail))
+	em.Cases = 1
+	m.E2E = em
+	m.Kinds = append(m.Kinds, writeKind(out, "ecases", "ecase", "ecase_model_ok", "ecase_verdict", []string{coq}, []any{js}, 60, ""))
+}
